@@ -24,4 +24,40 @@ pub trait ExRead {
                     && (old(self).failed() ==> final(self).failed()),   // sticky
                 Err(_) => final(self).failed(),
             };
+
+    fn by_ref(&mut self) -> (r: &mut Self) where Self: Sized
+        ensures *r == *old(self), *final(r) == *final(self);
+
+    fn bytes(self) -> (r: std::io::Bytes<Self>) where Self: Sized
+        ensures bytes_inner(r) == self;
 }
+
+#[verifier::external_type_specification]
+#[verifier::external_body]
+#[verifier::reject_recursive_types(R)]
+pub struct ExBytes<R>(std::io::Bytes<R>);
+pub uninterp spec fn bytes_inner<R>(b: std::io::Bytes<R>) -> R;
+pub uninterp spec fn same_handle<R>(a: R, b: R) -> bool;
+
+impl<'a, R: std::io::Read> ReadSpecImpl for &'a mut R {
+    open spec fn stream(&self) -> Seq<u8> { (**self).stream() }
+    open spec fn failed(&self) -> bool { (**self).failed() }
+}
+
+// io::Bytes::next reads exactly one byte from its source (ASSUMED, std)
+pub assume_specification<R: std::io::Read>[ <std::io::Bytes<R> as Iterator>::next ](b: &mut std::io::Bytes<R>) -> (r: Option<std::io::Result<u8>>)
+    ensures
+        match r {
+            Some(Ok(x)) => bytes_inner(*old(b)).stream().len() > 0 && x == bytes_inner(*old(b)).stream()[0]
+                && bytes_inner(*final(b)).stream() == bytes_inner(*old(b)).stream().skip(1)
+                && same_handle(bytes_inner(*old(b)), bytes_inner(*final(b))),
+            Some(Err(_)) => same_handle(bytes_inner(*old(b)), bytes_inner(*final(b))) && bytes_inner(*final(b)).failed(),
+            None => bytes_inner(*old(b)).stream().len() == 0 && bytes_inner(*final(b)).stream().len() == 0
+                && same_handle(bytes_inner(*old(b)), bytes_inner(*final(b))),
+        };
+
+// &mut prophecy plumbing through the opaque Bytes<&mut X> (two axioms, DESIGN 1)
+pub broadcast axiom fn axiom_bytes_resolved<'a, X: std::io::Read>(b: std::io::Bytes<&'a mut X>)
+    ensures #[trigger] has_resolved(b) ==> has_resolved(bytes_inner(b));
+pub broadcast axiom fn axiom_same_handle_mut<'a, X: std::io::Read>(a: &'a mut X, b: &'a mut X)
+    ensures #[trigger] same_handle(a, b) ==> *final(a) == *final(b);
